@@ -72,7 +72,11 @@ func (k *skel) callee(in *inst, x *ast.CallExpr) (*srcFunc, ast.Expr) {
 }
 
 // inline walks the body of sf in place of the call x. false: the call cannot be followed.
-func (k *skel) inline(in *inst, x *ast.CallExpr, sf *srcFunc, rx ast.Expr) bool {
+//
+// dst != nil: the call is the whole right-hand side of an assignment to the caller's local dst. The callee is then
+// followed only when its body can be written without `return` (structureReturns): every `return E` becomes
+// `dst = E`, so that `x := helper(a)` and the helper's if / else written out at the call site give the same facts.
+func (k *skel) inline(in *inst, x *ast.CallExpr, sf *srcFunc, rx ast.Expr, dst *ast.Ident) bool {
 	if in.depth >= maxInlineDepth || k.noInline[sf.key] {
 		return false
 	}
@@ -85,6 +89,25 @@ func (k *skel) inline(in *inst, x *ast.CallExpr, sf *srcFunc, rx ast.Expr) bool 
 	for _, t := range ptypes {
 		if _, ok := t.(*ast.Ellipsis); ok {
 			return false
+		}
+	}
+	if dst != nil {
+		robjs, _ := fieldObjs(h.fd.Type.Results)
+		if len(robjs) != 1 || robjs[0] != nil {
+			return false // one unnamed result only
+		}
+		var rets []ast.Expr
+		l, term, ok := structureReturns(h.fd.Body.List, func(e ast.Expr) ast.Stmt {
+			rets = append(rets, e)
+			return &ast.AssignStmt{Lhs: []ast.Expr{&ast.Ident{Name: dst.Name, Obj: dst.Obj}}, Tok: token.ASSIGN, Rhs: []ast.Expr{e}}
+		})
+		if !ok || !term {
+			return false
+		}
+		h.fd.Body.List = l
+		if in.feeding()[dst.Obj] {
+			h.feedSeeds = rets
+			h.feedExtra = dst.Obj
 		}
 	}
 	bind := func(o *ast.Object, arg ast.Expr) {
@@ -182,7 +205,7 @@ func (k *skel) expr(in *inst, e ast.Node) {
 					k.emit("call: maxmsgsize(" + argListIn(in, x) + ")")
 					return true
 				}
-				if k.inline(in, x, sf, rx) {
+				if k.inline(in, x, sf, rx, nil) {
 					return false
 				}
 				return true
@@ -322,6 +345,15 @@ func (k *skel) stmt(in *inst, st ast.Stmt) {
 	case *ast.SelectStmt:
 		k.emit("select")
 	case *ast.AssignStmt:
+		if len(s.Lhs) == 1 && len(s.Rhs) == 1 && (s.Tok == token.ASSIGN || s.Tok == token.DEFINE) {
+			if id, ok := s.Lhs[0].(*ast.Ident); ok && id.Obj != nil {
+				if ce, ok := s.Rhs[0].(*ast.CallExpr); ok {
+					if sf, rx := k.callee(in, ce); sf != nil && sf.key != k.sizeFn && k.inline(in, ce, sf, rx, id) {
+						return // the callee's returns have become assignments to the local
+					}
+				}
+			}
+		}
 		k.expr(in, st)
 		// data flow between the facts: an assignment to a local whose value reaches a guard, a loop condition or an
 		// index / slice bound on the peer's bytes (offset arithmetic, which result of a decoder goes where, the order of
@@ -340,11 +372,16 @@ func (k *skel) stmt(in *inst, st ast.Stmt) {
 				}
 			}
 		}
+		// `x := E` is printed like `x = E` (every declared object has its own number, so shadowing still shows)
+		cp := *s
+		if cp.Tok == token.DEFINE {
+			cp.Tok = token.ASSIGN
+		}
 		switch {
 		case feeds:
-			k.emit("asg: " + show(s))
+			k.emit("asg: " + show(&cp))
 		case resets:
-			k.emit("set: " + show(s))
+			k.emit("set: " + show(&cp))
 		}
 	case *ast.IncDecStmt:
 		k.expr(in, st)
@@ -379,6 +416,12 @@ func (in *inst) feeding() map[*ast.Object]bool {
 			return true
 		})
 		return
+	}
+	for _, e := range in.feedSeeds {
+		add(e)
+	}
+	if in.feedExtra != nil {
+		F[in.feedExtra] = true
 	}
 	ast.Inspect(in.fd.Body, func(n ast.Node) bool {
 		switch x := n.(type) {
@@ -501,4 +544,73 @@ func sizeTableFunc(ix *pkgIndex) *srcFunc {
 		die(fmt.Errorf("message size table: %d functions of the shape `switch cmd { case …: return <limit> }` found, want 1", len(found)))
 	}
 	return found[0]
+}
+
+// containsReturn: a `return` of the function itself (not of a closure) somewhere in n.
+func containsReturn(n ast.Node) bool {
+	found := false
+	ast.Inspect(n, func(x ast.Node) bool {
+		switch x.(type) {
+		case *ast.FuncLit:
+			return false
+		case *ast.ReturnStmt:
+			found = true
+		}
+		return !found
+	})
+	return found
+}
+
+// structureReturns rewrites the statement list of a function with one result into a list without `return`:
+//
+//	…; return E                        =>  …; dst = E
+//	if C {A; return E}; R              =>  if C {A; dst = E} else {R'}
+//	if C {A; return E} else {B}; R     =>  if C {A; dst = E} else {B; R'}       (and the mirror image)
+//
+// term: every path through the result ends in one of the new assignments. ok = false when a return sits where
+// this cannot be done without copying code (inside a loop, a switch, a block that also falls through).
+func structureReturns(l []ast.Stmt, asg func(ast.Expr) ast.Stmt) (out []ast.Stmt, term, ok bool) {
+	for i, st := range l {
+		switch s := st.(type) {
+		case *ast.ReturnStmt:
+			if len(s.Results) != 1 {
+				return nil, false, false
+			}
+			return append(out, asg(s.Results[0])), true, true
+		case *ast.IfStmt:
+			if !containsReturn(s) {
+				out = append(out, s)
+				continue
+			}
+			b, bt, ok1 := structureReturns(s.Body.List, asg)
+			e, et, ok2 := structureReturns(elseList(s.Else), asg)
+			if !ok1 || !ok2 || (!bt && !et) {
+				return nil, false, false
+			}
+			rt := true
+			if !bt || !et {
+				var r []ast.Stmt
+				r, rt, ok1 = structureReturns(l[i+1:], asg)
+				if !ok1 {
+					return nil, false, false
+				}
+				if bt {
+					e = append(e, r...)
+				} else {
+					b = append(b, r...)
+				}
+			}
+			n := &ast.IfStmt{Init: s.Init, Cond: s.Cond, Body: &ast.BlockStmt{List: b}}
+			if len(e) > 0 {
+				n.Else = &ast.BlockStmt{List: e}
+			}
+			return append(out, n), rt, true
+		default:
+			if containsReturn(st) {
+				return nil, false, false
+			}
+			out = append(out, st)
+		}
+	}
+	return out, false, true
 }
